@@ -316,9 +316,10 @@ func (ufs *Ufs) Walk(req *SrvReq) {
 	fid := req.Fid.Aux.(*ufsFid)
 	tc := req.Tc
 
-	err := fid.stat()
-	if err != nil {
-		req.RespondError(err)
+	// any number of walks may start from one fid at the same time:
+	// do not cache the stat in the source fid
+	if _, e := os.Lstat(fid.path); e != nil {
+		req.RespondError(toError(e))
 		return
 	}
 
